@@ -387,7 +387,7 @@ def path_conditions(node, func=None, check_kill=True):
     conds = []
     child = node
     for p in parents(node):
-        if isinstance(p, FUNC + (ast.Lambda,)):
+        if isinstance(p, ast.Lambda):
             if func is None:
                 func = p
             break
@@ -423,8 +423,10 @@ def path_conditions(node, func=None, check_kill=True):
                             conds.append((prev.test, True))
                     elif isinstance(prev, ast.Assert):
                         conds.append((prev.test, True))
-        if isinstance(p, ast.ExceptHandler):
-            pass
+        if isinstance(p, FUNC):
+            if func is None:
+                func = p
+            break
         child = p
     if check_kill and func is not None:
         kept = []
@@ -550,3 +552,14 @@ def refine_bool(test, state, atom, join):
                 break
         return (cur, short) if is_and else (short, cur)
     return atom(test, True, state), atom(test, False, state)
+
+
+
+def count_paths(node, pred):
+    """set of possible numbers of evaluated calls matching pred when `node` (a simple statement or expression)
+    is evaluated once: conditional sub-expressions (a if c else b, and/or, comprehension bodies) fork"""
+    def visit(n, st):
+        if isinstance(n, ast.Call) and pred(n):
+            return frozenset(x + 1 for x in st)
+        return st
+    return eval_walk(node, frozenset([0]), visit, lambda a, b: a | b)
